@@ -178,9 +178,44 @@ def len_role(e, env):
     return None
 
 
+def expand(g: Guard, fn) -> Guard:
+    """`if X: raise` where X is a local derived collection is rewritten to the relation it tests:
+         X = A - B            ->  not A.issubset(B)
+         X = A & B / A.intersection(B)  ->  not A.isdisjoint(B)
+         X = [e for e in S if c] / {k: v for ... if c}   ->  `c` for every element of S (a synthetic enclosing loop)"""
+    env = local_env(fn)
+    t = g.test
+    neg = g.negated
+    while isinstance(t, ast.UnaryOp) and isinstance(t.op, ast.Not):
+        t, neg = t.operand, not neg
+    if isinstance(t, ast.Compare) and len(t.ops) == 1 and isinstance(t.left, ast.Call) and ast.unparse(t.left.func) == "len" \
+            and isinstance(t.comparators[0], ast.Constant) and t.comparators[0].value == 0 and isinstance(t.ops[0], (ast.Gt, ast.NotEq)):
+        t = t.left.args[0]
+    if not isinstance(t, ast.Name) or neg or t.id not in env:
+        return g
+    v = env[t.id]
+    if isinstance(v, ast.BinOp) and isinstance(v.op, ast.Sub):
+        new = ast.parse(f"({ast.unparse(v.left)}).issubset({ast.unparse(v.right)})", mode="eval").body
+        return Guard(g.mod, g.qual, g.node, new, True, g.ctxs, g.order)
+    inter = None
+    if isinstance(v, ast.BinOp) and isinstance(v.op, ast.BitAnd):
+        inter = (v.left, v.right)
+    if isinstance(v, ast.Call) and isinstance(v.func, ast.Attribute) and v.func.attr == "intersection" and v.args:
+        inter = (v.func.value, v.args[0])
+    if inter:
+        new = ast.parse(f"({ast.unparse(inter[0])}).isdisjoint({ast.unparse(inter[1])})", mode="eval").body
+        return Guard(g.mod, g.qual, g.node, new, True, g.ctxs, g.order)
+    if isinstance(v, (ast.ListComp, ast.DictComp, ast.SetComp)) and len(v.generators) == 1 and len(v.generators[0].ifs) == 1:
+        gen = v.generators[0]
+        loop = ast.For(target=gen.target, iter=gen.iter, body=[], orelse=[], lineno=g.node.lineno, col_offset=0)
+        return Guard(g.mod, g.qual, g.node, gen.ifs[0], False, g.ctxs + [("for", loop)], g.order)
+    return g
+
+
 def classify(g: Guard, fn, graph: Graph) -> List[str]:
     """fault classes (cells) this guard discharges"""
     env = local_env(fn)
+    g = expand(g, fn)
     t = g.test
     out = []
     # strip a leading `not`
@@ -207,7 +242,7 @@ def classify(g: Guard, fn, graph: Graph) -> List[str]:
             if {ll, lr} == {"process_noise", "CONTROL"}:
                 out.append("F4b")
             rl, rr = role_of(l, env), role_of(r, env)
-            is_set = lambda e: isinstance(e, ast.Call) and isinstance(e.func, ast.Name) and e.func.id == "set" or (isinstance(e, ast.Name) and _is_set_name(e.id, env))
+            is_set = lambda e: isinstance(e, ast.Call) and isinstance(e.func, ast.Name) and e.func.id in ("set", "frozenset") or (isinstance(e, ast.Name) and _is_set_name(e.id, env))
             if {rl, rr} == {"calibration_map", "CALIB"} and ll is None and lr is None and is_set(l):
                 out.append("F3")
             if {rl, rr} == {"sensor_models", "sensor_noises"} and ll is None and lr is None:
@@ -254,7 +289,7 @@ def classify(g: Guard, fn, graph: Graph) -> List[str]:
 
 def _is_set_name(name, env):
     v = env.get(name)
-    return isinstance(v, ast.Call) and isinstance(v.func, ast.Name) and v.func.id == "set"
+    return isinstance(v, ast.Call) and isinstance(v.func, ast.Name) and v.func.id in ("set", "frozenset")
 
 
 def _per_sensor_size(l, r, env):
@@ -326,9 +361,13 @@ def run(ctx: core.Ctx) -> int:
     uim = core.need(graph.func("ui_model", "Model.__init__"), "ui_model.Model.__init__")
     ui_cells: Dict[str, Guard] = {}
     all_guards = 0
+    ui_unclassified = []
     for g in guards_of("ui_model", "Model.__init__", uim):
         all_guards += 1
-        for c in classify(g, uim, graph):
+        cs = classify(g, uim, graph)
+        if not cs:
+            ui_unclassified.append((g, uim))
+        for c in cs:
             ui_cells.setdefault(c, g)
     need_cells = {"python.compile": ["F1:CALIB/STATE", "F1:CONTROL/STATE", "F1:CALIB/CONTROL", "F2:size", "F2:keys", "F3"],
                   "cpp.compile": ["F1:CALIB/STATE", "F1:CONTROL/STATE", "F1:CALIB/CONTROL", "F2:size", "F2:keys", "F3"]}
@@ -342,10 +381,14 @@ def run(ctx: core.Ctx) -> int:
         ctx.functions.append(ent)
         cells: Dict[str, Guard] = dict(ui_cells)
         erasable = []
+        unclassified = list(ui_unclassified)
         for m, q, f in graph.reach(mod, name):
             for g in guards_of(m, q, f):
                 all_guards += 1
-                for c in classify(g, f, graph):
+                cs = classify(g, f, graph)
+                if not cs:
+                    unclassified.append((g, f))
+                for c in cs:
                     if c == "F5:erasable":
                         erasable.append(g)
                     else:
@@ -360,6 +403,21 @@ def run(ctx: core.Ctx) -> int:
         for c in need_cells[ent]:
             g = cells.get(c)
             row[c] = f"{FILES[g.mod]}:{g.qual}:{g.line}" if g else None
+            if g is None:
+                # a guard about this fault class exists but its form is outside the recognisers: that is an analysis limit, not a finding
+                kw = {"F1": ("isdisjoint", "intersection", "&"), "F2": ("state_model",), "F3": ("calibration",), "F4a": ("process_noise",),
+                      "F4b": ("process_noise",), "F4c": ("process_noise", "noise"), "F5": ("free_symbols",), "F6": ("sensor_noises",)}[c.split(":")[0]]
+                near = []
+                for ug, uf in unclassified:
+                    e = expand(ug, uf)
+                    txt = ast.unparse(e.test) + " " + " ".join(ast.unparse(v) for k2, v in local_env(uf).items()
+                                                                if any(isinstance(n, ast.Name) and n.id == k2 for n in ast.walk(ug.test)))
+                    if any(k in txt for k in kw):
+                        near.append(f"{FILES[ug.mod]}:{ug.qual}:{ug.line} `{ug.text()[:60]}`")
+                if near:
+                    ctx.error(f"{ent}: fault class {c} is not discharged by a recognised guard, but guard(s) about the same subject exist whose form "
+                              f"is not enumerated: {near[:3]}")
+                    continue
             ctx.oblige("VALID-MATRIX", ent, f"{c}: {row[c]}", g is not None, file=FILES[mod], func=name, construct=f"cell {c}",
                        msg=f"{ent} reaches no unconditional guard for fault class {c} ({_explain(c)}) before producing its output: "
                            f"such a definition is turned into a " + ("model / filter" if mod == "python" else "source file"))
